@@ -27,7 +27,7 @@ func TestC02Stateful(t *testing.T) {
 			w.do(op, w.bal, "mint", u.ScriptHash(), op.amount, []byte("init"))
 		}
 		w.do(&balOp{kind: "mint", amount: bi(77), signers: []neotest.Signer{w.c.Alphabet}, desc: "mint(actor,77)"}, w.bal, "mint", w.actor, bi(77), []byte("init"))
-		kinds := []string{"transfer", "transfer", "transfer", "transfer", "transfer", "transferX", "mint", "burn", "lock", "newEpoch", "tick"}
+		kinds := []string{"transfer", "transfer", "transfer", "transfer", "transfer", "transferX", "mint", "mint", "burn", "lock", "newEpoch", "tick"}
 		steps := rapid.IntRange(1, 25).Draw(rt, "steps")
 		for i := 0; i < steps; i++ {
 			w.balStep(rt, kinds)
@@ -43,7 +43,7 @@ func TestC02Stateful(t *testing.T) {
 func TestC02Matrix(t *testing.T) {
 	theT = t
 	col := ev.New("C02", "matrix",
-		"complete enumeration of single transfer calls: 11 amount classes x every subset of the signer pool x (from,to) in population^2 (3 users, contract account, empty account) x {entry script, via contract}; every case is a distinct non-trivial debit attempt unless signers = {from}",
+		"complete enumeration of single transfer calls: 11 amount classes x every subset of the signer pool x (from,to) in population^2 (3 users, contract account, the Balance contract's own address, empty account) x {entry script, via contract}; every case is a distinct non-trivial debit attempt unless signers = {from}",
 		"state evolves between cases and is re-funded when an account runs dry (the oracle is per transaction and state independent)")
 	defer func() { col.Flush(true) }()
 	ns := []int{1}
@@ -59,7 +59,7 @@ func TestC02Matrix(t *testing.T) {
 		classes := []string{"neg1", "negBig", "zero", "one", "eq", "eq-1", "eq+1", "over", "2^63", "2^255-1", "-2^63"}
 		refund := func() {
 			st := w.state()
-			for _, a := range pop[:4] {
+			for _, a := range pop[:5] {
 				if st.bal(a).Cmp(bi(20)) < 0 {
 					w.c.Invoke([]neotest.Signer{w.c.Alphabet}, w.bal, "mint", a, bi(100), []byte("refund"))
 				}
